@@ -232,7 +232,7 @@ def explore_geometry(arg):
 
 
 def run(ctx):
-    depth = 4 if ctx.quick else 6
+    depth = 4 if ctx.quick else 8
     geoms = list(geometries(ctx.tier))
     results = ctx.pmap(explore_geometry, [(g, depth) for g in geoms], chunksize=4)
     ctx.merge_all(results)
